@@ -626,7 +626,7 @@ impl Property for C04P {
          quotes, backslash, e-acute, CJK, astral, U+0085, U+2028, U+FEFF, U+00A0, random printable; double-quoted escapes of named, \\x, \\u, \\U form \
          for named characters, boundary code points and random chars; '' in single quotes) separated by nothing, interior blanks (kept), \
          folds (1..3 breaks, blank / tab padding before the break, on the empty lines and after the continuation indentation, 0..3 extra \
-         indentation) or escaped breaks (optionally followed by empty lines); blanks at both ends inside quotes; multi-line programs are also run with CR LF and lone CR line breaks. A sanitiser enforces the style's productions by construction \
+         indentation) or escaped breaks (optionally followed by empty lines); blanks at both ends inside quotes; multi-line programs are also run with CR LF and lone CR line breaks, and block / root contexts also in a form where the scalar is the last thing of the input with no final break; continuation lines of plain scalars may start with any ns-plain-char, and away from column 0 a plain scalar may be a marker-like word (---, ..., -?-). A sanitiser enforces the style's productions by construction \
          (ns-plain-first / -safe, ': ' and ' #' exclusions, flow-indicator exclusion in flow context, single-line implicit keys). The \
          program is wrapped in 10 contexts (root, after '---', block value, sequence entry, block key, nested sequence entry, flow entry, \
          flow mapping value, flow key, flow root) and parsed on StrInput, BufferedInput and TestInput<8>; the full event list with the \
